@@ -559,3 +559,41 @@ package commonmark
 //@   loop 1: invariant[where] fresh(*buf) || (aliases(*buf, old(*buf)) && cap(*buf) == cap(old(*buf)))
 //@   loop 1: invariant[frame] framed()
 //@   serves C17, C04
+
+// ---------------------------------------------------------------------------
+// URI normalisation (C15): the output consists of RFC 3986 reserved and
+// unreserved characters and of percent-escapes %HH with two hex digits; a
+// string that already has that form is returned unchanged (so the function is
+// idempotent).
+// ---------------------------------------------------------------------------
+
+//@ spec IsURISafe(c int) bool = c == ';' || c == '/' || c == '?' || c == ':' || c == '@' || c == '&' || c == '=' || c == '+'
+//@    || c == '$' || c == ',' || c == '-' || c == '_' || c == '.' || c == '!' || c == '~' || c == '*' || c == '\'' || c == '(' || c == ')' || c == '#'
+//@ spec IsURIChar(c int) bool = IsAlnum(c) || IsURISafe(c)
+//@ spec URIAlphabet(s []byte, n int) bool = forall p in [0, n): IsURIChar(s[p]) || s[p] == '%'
+//@ -- every % among the first n bytes is followed by two hex digits, except that the last one may still
+//@ -- be waiting for pend of them
+//@ spec URIEscapes(s []byte, n int, pend int) bool = forall p in [0, n): s[p] == '%' ==>
+//@    ((p + 2 < n && IsHexDigit(s[p+1]) && IsHexDigit(s[p+2])) || (pend == 2 && p == n - 1) || (pend == 1 && p == n - 2 && IsHexDigit(s[n-1])))
+//@ spec WellFormedURI(s []byte) bool = URIAlphabet(s, len(s)) && URIEscapes(s, len(s), 0)
+
+//@ func urlHexDigit
+//@   requires x < 16
+//@   ensures[hex] IsHexDigit(result)
+//@   serves C15, C04
+
+//@ func NormalizeURI
+//@   ensures[alphabet] URIAlphabet(result, len(result))
+//@   ensures[escapes] URIEscapes(result, len(result), 0)
+//@   ensures[identity] WellFormedURI(s) ==> result == s
+//@   loop 0: invariant[sb] !isnil(sb) && 0 <= skip && skip <= 2 && fresh(sb) && (isnil(sb.buf) || fresh(sb.buf)) && !sameArray(sb.buf, buf)
+//@   loop 0: invariant[frame] framed()
+//@   loop 0: invariant[alphabet] URIAlphabet(sb.buf, len(sb.buf))
+//@   loop 0: invariant[escapes] URIEscapes(sb.buf, len(sb.buf), skip)
+//@   loop 0: invariant[pending] (skip == 2 ==> (_i + 1 < len(s) && IsHexDigit(s[_i]) && IsHexDigit(s[_i + 1]))) && (skip == 1 ==> (_i < len(s) && IsHexDigit(s[_i])))
+//@   loop 0: invariant[identity] WellFormedURI(s) ==> (len(sb.buf) == _i && (forall k in [0, _i): sb.buf[k] == s[k]))
+//@   loop 1: invariant[sb] !isnil(sb) && skip == 0 && !WellFormedURI(s) && fresh(sb) && (isnil(sb.buf) || fresh(sb.buf)) && !sameArray(sb.buf, buf)
+//@   loop 1: invariant[frame] framed()
+//@   loop 1: invariant[alphabet] URIAlphabet(sb.buf, len(sb.buf))
+//@   loop 1: invariant[escapes] URIEscapes(sb.buf, len(sb.buf), 0)
+//@   serves C15, C04, C07
